@@ -68,6 +68,38 @@ def run(op):
                     "d": [d.year, d.month, d.day],
                     "dt": [dt.year, dt.month, dt.day, dt.hour, dt.minute, dt.second, dt.microsecond,
                            None if off is None else int(off.total_seconds())]}
+        if k == "std_any":
+            # any value (in or out of the stdlib range): fields of the stdlib object(s), value converted back
+            def offs(o):
+                return None if o is None else int(o.total_seconds())
+            if op["t"] == "datetime":
+                dt = XmlDateTime(*op["v"]).to_datetime()
+                inst = (dt if dt.tzinfo else dt.replace(tzinfo=datetime.timezone.utc)) - datetime.datetime(1970, 1, 1, tzinfo=datetime.timezone.utc)
+                return {"fields": [dt.year, dt.month, dt.day, dt.hour, dt.minute, dt.second, dt.microsecond, offs(dt.utcoffset())],
+                        "back": list(XmlDateTime.from_datetime(dt)),
+                        "us": (inst.days * 86400 + inst.seconds) * 1000000 + inst.microseconds}
+            if op["t"] == "time":
+                t = XmlTime(*op["v"]).to_time()
+                return {"fields": [t.hour, t.minute, t.second, t.microsecond, offs(t.utcoffset())],
+                        "back": list(XmlTime.from_time(t))}
+            a = XmlDate(*op["v"])
+            d, dt = a.to_date(), a.to_datetime()
+            return {"dfields": [d.year, d.month, d.day],
+                    "fields": [dt.year, dt.month, dt.day, dt.hour, dt.minute, dt.second, dt.microsecond, offs(dt.utcoffset())],
+                    "back_d": list(XmlDate.from_date(d)), "back_dt": list(XmlDate.from_datetime(dt))}
+        if k == "now":
+            # XmlTime.now(tz) / utcnow() / XmlDateTime.now(tz) between two reference readings of the clock
+            tzm = op["tz"]
+            tz = None if tzm is None else (datetime.timezone.utc if tzm == 0 else datetime.timezone(datetime.timedelta(minutes=tzm)))
+            def tod(d):
+                return (d.hour * 3600 + d.minute * 60 + d.second) * 1000000 + d.microsecond
+            lo = datetime.datetime.now(tz=tz)
+            if op["utc"]:
+                t, dt = XmlTime.utcnow(), XmlDateTime.utcnow()
+            else:
+                t, dt = XmlTime.now(tz), XmlDateTime.now(tz)
+            hi = datetime.datetime.now(tz=tz)
+            return {"t": list(t), "dt": list(dt), "lo": tod(lo), "hi": tod(hi)}
         raise KeyError(k)
     except ValueError as e:
         return {"err": "ValueError"}
